@@ -38,3 +38,34 @@ package y
 //@   props C20
 //@   requires len(src) >= 8 && len(dst) >= 8
 //@   ensures[same] result <==> (len(src) == len(dst) && bytes(uk(src)) == bytes(uk(dst)))
+
+// ---- varints and the value struct (C20; also what Arena.putVal/getVal rely on, C06) ----
+
+//@ func sizeVarint
+//@   props C20
+//@   ensures[ulen] result == ulen(x)
+//@   loop 1 invariant[count] n >= 0 && n <= 9 && n + ulen(x) == ulen(old(x))
+//@   loop 1 reveal ulen(x), ulen(x>>7), ulen(old(x))
+//@   loop 1 decreases x
+
+//@ func (*ValueStruct).EncodedSize
+//@   props C20 C06
+//@   ensures[size] result == uint32(len(v.Value) + 2 + ulen(v.ExpiresAt))
+
+//@ func (*ValueStruct).Encode
+//@   props C20 C06
+//@   requires len(b) >= len(v.Value) + 2 + ulen(v.ExpiresAt)
+//@   requires !sameRegion(b, v.Value)
+//@   ensures[size] result == uint32(len(v.Value) + 2 + ulen(v.ExpiresAt))
+//@   ensures[meta] b[0] == v.Meta && b[1] == v.UserMeta
+//@   ensures[expiry] uvLen(b[2:]) == ulen(v.ExpiresAt) && uvVal(b[2:]) == v.ExpiresAt
+//@   ensures[value] bytes(b[2+ulen(v.ExpiresAt) : 2+ulen(v.ExpiresAt)+len(v.Value)]) == bytes(old(v.Value))
+//@   assigns b[0 : len(v.Value) + 2 + ulen(v.ExpiresAt)]
+
+//@ func (*ValueStruct).Decode
+//@   props C20 C06
+//@   requires len(b) >= 2 && uvOK(b[2:])
+//@   ensures[meta] v.Meta == b[0] && v.UserMeta == b[1]
+//@   ensures[expiry] v.ExpiresAt == uvVal(b[2:])
+//@   ensures[value] v.Value == b[2+uvLen(b[2:]):]
+//@   assigns v.Meta, v.UserMeta, v.ExpiresAt, v.Value
